@@ -33,9 +33,18 @@ RECURSIVE MergeKv(_, _, _)
 MergeKv(st, id, es) == IF es = <<>> THEN st
                        ELSE LET e == Head(es) IN
                             MergeKv(IF e[1] = id /\ ~(\E q \in 1..Len(st) : st[q][1] = e[2]) THEN InsertBy(st, <<e[2], e[3]>>, StLess) ELSE st, id, Tail(es))
-NormCtx(c) == IF "kv" \notin DOMAIN c \/ c.kv = <<>> THEN c
-              ELSE [c EXCEPT !.svcs = [q \in 1..Len(c.svcs) |-> [c.svcs[q] EXCEPT !.st = MergeKv(@, c.svcs[q].id, c.kv)]],
-                             !.kv = SelectSeq(c.kv, LAMBDA e : e[1] \notin Ids(c.svcs))]
+\* raw lookup entries <<service, hash, length, E(var-length sequence of E_4(slot))>> likewise
+DecSlots(val) == [i \in 1..val[1] |-> Sub(val, 4 * i - 2, 4 * i + 1)]
+RECURSIVE MergeKvl(_, _, _)
+MergeKvl(lk, id, es) == IF es = <<>> THEN lk
+                        ELSE LET e == Head(es) IN
+                             MergeKvl(IF e[1] = id /\ ~(\E q \in 1..Len(lk) : lk[q].h = e[2] /\ lk[q].z = e[3])
+                                      THEN InsertBy(lk, [h |-> e[2], z |-> e[3], slots |-> DecSlots(e[4])], LkLess) ELSE lk, id, Tail(es))
+NormCtx(c) == IF "kv" \notin DOMAIN c \/ (c.kv = <<>> /\ ("kvl" \notin DOMAIN c \/ c.kvl = <<>>)) THEN c
+              ELSE LET kvl == IF "kvl" \in DOMAIN c THEN c.kvl ELSE <<>> IN
+                   [c EXCEPT !.svcs = [q \in 1..Len(c.svcs) |-> [c.svcs[q] EXCEPT !.st = MergeKv(@, c.svcs[q].id, c.kv), !.lk = MergeKvl(@, c.svcs[q].id, kvl)]],
+                             !.kv = SelectSeq(c.kv, LAMBDA e : e[1] \notin Ids(c.svcs)),
+                             !.kvl = SelectSeq(kvl, LAMBDA e : e[1] \notin Ids(c.svcs))]
 NormPre(e) == [e.pre EXCEPT !.gas = IF IsDispatch(e) THEN SubU(e.pre.gas, U(1)) ELSE e.pre.gas, !.ctx = NormCtx(e.pre.ctx)]
 NormPost(e) ==
   LET po == [e.post EXCEPT !.ctx = NormCtx(e.post.ctx)] IN
